@@ -283,6 +283,18 @@ def run(chk):
             chk.violation(v["rule"], v["key"] + "@K6", "[release profile] " + v["what"], **v["detail"])
     except ImportError:
         chk.notes.append("devkit not available: terminal/device obligations not evaluated")
+    # device updates also SELECT: the command a device relays is the newest of those at its terminals (table shared with C13)
+    import rules.C13 as C13
+    subd = __import__("report").Check("C03", chk.tier)
+    for dev, n in (("Invert", None), ("GearTrain", None), ("Axle", 2)):
+        C13.check_device(subd, prog, sim, dev, n)
+    chk.evaluations += subd.evaluations
+    keyd = "device-selection:commands"
+    chk.obligation(keyd, "the command selected by a device update is a candidate with no strictly newer candidate (shared with C13)")
+    for v in subd.violations:
+        chk.violation("C03.device" if v["rule"].startswith("C13") else v["rule"], "select:" + v["key"], "device update selects a command that is not the newest candidate: " + v["what"], **v["detail"])
+    if not subd.violations:
+        chk.discharge(keyd)
     # device updates: written states carry the newest contributing time (shared simulation with C08)
     import rules.C08 as C08
     import report as _r
